@@ -75,7 +75,7 @@ def case_strategy(draw, tier="quick"):
                            st.text(st.characters(min_codepoint=32, max_codepoint=126), min_size=1, max_size=60)))
     if title is not None and draw(st.booleans()):
         title = title + "\n"
-    bk = draw(st.sampled_from(["unset", "vector", "diagonal", "triclinic", "triclinic"]))
+    bk = draw(st.sampled_from(["unset", "vector", "diagonal", "triclinic", "triclinic", "triclinic"]))
     if bk == "unset":
         box = None
     elif bk == "vector":
@@ -85,8 +85,16 @@ def case_strategy(draw, tier="quick"):
     else:
         b = np.round(rng.uniform(-99, 99, (3, 3)), 5)
         b[np.diag_indices(3)] = np.round(rng.uniform(0.5, 900, 3), 5)
-        if draw(st.booleans()):       # GROMACS convention: lower triangular
+        shape = draw(st.sampled_from(["full", "lower", "upper", "single"]))
+        if shape == "lower":          # GROMACS convention: lower triangular
             b[0, 1] = b[0, 2] = b[1, 2] = 0
+        elif shape == "upper":
+            b[1, 0] = b[2, 0] = b[2, 1] = 0
+        elif shape == "single":       # exactly one off-diagonal component is non-zero
+            keep = draw(st.sampled_from([(0, 1), (0, 2), (1, 0), (1, 2), (2, 0), (2, 1)]))
+            val = b[keep] if b[keep] != 0 else 1.5
+            b[~np.eye(3, dtype=bool)] = 0
+            b[keep] = val
         box = b.tolist()
     return {"records": recs, "format": fmt, "vel": vel, "title": title, "box_kind": bk, "box": box,
             "declare": draw(st.booleans()), "api": draw(st.sampled_from(["writeline", "writelines", "with", "tuple"]))}
@@ -198,7 +206,59 @@ def check(case):
                        "box": case["box"], "declare": case["declare"], "api": case["api"]}}
 
 
+# ------------------------------------------------------------------ line level (the formatting mechanism itself)
+@st.composite
+def line_case(draw):
+    fmt = draw(st.sampled_from([None, 1, 2, 3, 4, 5, 6]))
+    d = 3 if fmt is None else fmt
+    vel = draw(st.booleans())
+    rng = np.random.default_rng(draw(gen.SEEDS))
+    pos, _ = grid_values(rng, 3, d, 4, 3)
+    rec = [draw(NUMBER), draw(NAME), draw(NAME), draw(NUMBER)] + pos.tolist()
+    if vel:
+        v, _ = grid_values(rng, 3, d + 1, 3, 2)
+        rec += v.tolist()
+    return {"record": rec, "format": fmt, "vel": vel}
+
+
+def check_line(case):
+    rec = case["record"]
+    d = 3 if case["format"] is None else case["format"]
+    w = d + 5
+    fd = None if case["format"] is None else {"position": (w, d), "velocities": case["vel"]}
+    line = lib("format-line", GroFile.parse_atomlist, list(rec), fd)
+    want = 20 + 3 * w * (2 if case["vel"] else 1)
+    if len(line) != want or "\n" in line:
+        raise PropertyViolation("line-length", "record %r formats to %d characters, expected %d: %r" % (rec, len(line), want, line))
+    back = lib("parse-line", GroFile.parse_atomline, line, fd)
+    back2 = lib("parse-line-autodetect", GroFile.parse_atomline, line + "\n")
+    if tuple(back) != tuple(back2):
+        raise PropertyViolation("format-autodetect", "line %r parses to %r with the format given and to %r with the "
+                                "format inferred" % (line, back, back2))
+    if (back[1], back[2]) != (rec[1], rec[2]):
+        raise PropertyViolation("names", "names %r read back as %r" % ((rec[1], rec[2]), (back[1], back[2])))
+    for k in (0, 3):
+        if rec[k] <= 99999 and back[k] != rec[k]:
+            raise PropertyViolation("numbers", "number %d read back as %r" % (rec[k], back[k]))
+        if not 0 <= back[k] <= 99999:
+            raise PropertyViolation("numbers-wrap", "number %d read back as %r" % (rec[k], back[k]))
+    for k in range(4, len(rec)):
+        tol = 0.5 * 10.0 ** (-d if k < 7 else -d - 1) + 1e-12
+        if not abs(back[k] - rec[k]) <= tol:
+            raise PropertyViolation("values", "value %r read back as %r (d=%d)" % (rec[k], back[k], d))
+    # the same line through the atom object
+    from gaddlemaps.components import AtomGro
+    if case["format"] is None:
+        atom = AtomGro(list(rec))
+        line2 = lib("atom-gro-line", atom.gro_line, False)
+        if line2 != line:
+            raise PropertyViolation("atom-line", "AtomGro.gro_line gives %r, the writer %r" % (line2, line))
+    return {"nontrivial": case["format"] is not None or case["vel"] or max(rec[0], rec[3]) >= 99998,
+            "classes": ["fmt:%s" % ("default" if case["format"] is None else "custom"), "vel" if case["vel"] else "novel"]}
+
+
 SUBCHECKS = [
     Sub("roundtrip", check, strategy=lambda tier: case_strategy(tier), quick=2000, thorough=50000,
         min_share={"fmt:custom": 0.4, "vel": 0.3, "big-number": 0.3, "box:triclinic": 0.2}),
+    Sub("line", check_line, strategy=lambda tier: line_case(), quick=6000, thorough=200000),
 ]
